@@ -118,13 +118,26 @@ class PlayerListStep(Unit):
         new = dict(name=E.new_str('new.name'), properties=['new-props'], gamemode=E.new_int('new.gamemode'),
                    ping=E.new_int('new.ping'), display_name=E.new_str('new.display') if E.fork(2, 'new-has-display') else None)
         own = cls.__dict__.get('__slots__', ())
-        for k in ((own,) if isinstance(own, str) else own):
-            setattr(act, k, new[k])
+        own = (own,) if isinstance(own, str) else tuple(own)
+        # fault at one point: the action was only partly decoded (the stream ended inside it) and one of its fields was never
+        # set.  Applying it fails - and must then leave the tracked state exactly as it was: the state is "the replay of the
+        # packets that applied" (seeded change C20-r10: the entry is replaced by a half-filled record before the copy fails)
+        missing = E.fork(len(own) + 1, 'field-never-set') - 1
+        for j, k in enumerate(own):
+            if j != missing:
+                setattr(act, k, new[k])
         try:
             I.call(I.getattr_(act, 'apply'), plist)
         except PyRaise as e:
+            if missing >= 0:
+                E.check('playerlist.failed-apply-leaves-state', m.e[0] is e1 and (e1 is None or same_fields(e1, v1)) and
+                        m.e[1] is e2 and (e2 is None or same_fields(e2, v2)) and m.other_writes == 0,
+                        note='%s without %r raised %r: the tracker must be unchanged' % (kind, own[missing], type(e.exc).__name__))
+                return None
             E.check('playerlist.no-raise', False, note='%s: %r' % (kind, e.exc))
             return None
+        if missing >= 0:
+            return None          # tolerated the missing field: no claim
         after = m.e[0]
         # frame over the whole view: the arbitrary other entry is untouched, nothing else is written
         E.check('playerlist.frame', m.e[1] is e2 and (e2 is None or same_fields(e2, v2)) and m.other_writes == 0,
@@ -193,6 +206,23 @@ def replay_playerlist(rng=None, rounds=50):
             if kk != 'ok' or got != ref:
                 return dict(confirmed=True, n=n, call='history step %d: %s on %s' % (step, type(a).__name__, u),
                             observed='%s; tracker %r, replay gives %r' % (kk, got.get(u), ref.get(u)))
+    # an action that lacks one field (truncated decode): apply raises and the tracker is unchanged
+    for missing in ('name', 'properties', 'gamemode', 'ping', 'display_name'):
+        n += 1
+        plist = PL.PlayerList()
+        u = pool[0]
+        PL.AddPlayerAction(uuid=u, name='old', properties=[], gamemode=1, ping=2, display_name='d').apply(plist)
+        before = {f: getattr(plist.players_by_uuid[u], f) for f in FIELDS}
+        a = PL.AddPlayerAction()
+        for f, v in dict(uuid=u, name='new', properties=[], gamemode=3, ping=4, display_name=None).items():
+            if f != missing:
+                setattr(a, f, v)
+        kk, v = native_call(a.apply, plist)
+        it = plist.players_by_uuid.get(u)
+        now = None if it is None else {f: getattr(it, f, '<unset>') for f in FIELDS}
+        if kk == 'raise' and now != before:
+            return dict(confirmed=True, n=n, call='AddPlayerAction without %r (partly decoded) applied over an existing player' % missing,
+                        observed='apply raised %r, but the tracked entry changed from %r to %r' % (v, before, now))
     return dict(confirmed=False, n=n, call='player list histories', observed='conform')
 
 
